@@ -29,6 +29,11 @@ def mods():
   usbstub.install()
   from openhtf.plugs.usb import adb_message, usb_exceptions  # pylint: disable=g-import-not-at-top
   from openhtf.util import timeouts  # pylint: disable=g-import-not-at-top
+  try:
+    # the sync service defines its own command ids with the same helper: loading it must not widen what the ADB framing accepts
+    from openhtf.plugs.usb import filesync_service  # pylint: disable=g-import-not-at-top,unused-import
+  except Exception:  # pylint: disable=broad-except
+    pass
   return adb_message, usb_exceptions, timeouts
 
 
@@ -177,7 +182,8 @@ def fault_frames():
       if n + dn >= 0:
         yield ('%s:len%+d' % (base, dn), struct.pack('<IIIIII', w, a0, a1, n + dn, ck, mg), payload)
       yield ('%s:sum%+d' % (base, dn), struct.pack('<IIIIII', w, a0, a1, n, (ck + dn) & 0xffffffff, mg), payload)
-    for badw in (0, 0xffffffff, cmdword('XXXX'), cmdword('okay'), w + 1):
+    for badw in (0, 0xffffffff, cmdword('XXXX'), cmdword('okay'), w + 1, cmdword('DATA'), cmdword('STAT'), cmdword('SEND'), cmdword('DONE'),
+                 cmdword('FAIL'), cmdword('STLS')):
       yield ('%s:cmd%08x' % (base, badw), struct.pack('<IIIIII', badw, a0, a1, n, ck, badw ^ 0xffffffff), payload)
     for k in range(24):
       yield ('%s:trunc%d' % (base, k), h[:k], payload)
@@ -424,8 +430,74 @@ def part_histories(tier):
   return n, len(outcomes), viols, [{'history': ['V1', 'TRUNC', 'V2'], 'expected': 'msg, error, msg'}]
 
 
+def part_write_faults():
+  """A transfer that fails: the k-th write of a sequence of three messages raises.  Whatever reaches the wire afterwards is
+  still a sequence of complete frames (a payload never goes out without its header), and it reads back."""
+  am, ue, timeouts = mods()
+  import libusb1  # pylint: disable=g-import-not-at-top
+  msgs = [('WRTE', 1, 2, 'abc'), ('OKAY', 3, 4, ''), ('WRTE', 5, 6, 'hello'), ('CLSE', 9, 9, '')]
+  viols, n, outcomes = [], 0, set()
+  for fail_at in range(1, 8):
+    n += 1
+
+    class FT(Transport):
+
+      def write(self, data, timeout_ms=None):
+        self.calls = getattr(self, 'calls', 0) + 1
+        if self.calls == fail_at:
+          raise ue.UsbWriteFailedError(libusb1.USBError(libusb1.LIBUSB_ERROR_TIMEOUT))
+        self.writes.append((data, timeout_ms))
+
+    t = FT([])
+    ad = am.AdbTransportAdapter(t)
+    results = []
+    for cmd, a0, a1, data in msgs:
+      try:
+        ad.write_message(am.AdbMessage(cmd, a0, a1, data), never())
+        results.append('ok')
+      except Exception as e:  # pylint: disable=broad-except
+        results.append(type(e).__name__)
+    outcomes.add(tuple(results))
+    # decode what is on the wire: header chunks of 24 bytes, each followed by exactly its payload (unless that payload
+    # write is the one that failed, which ends the frame there)
+    chunks = [s2b(c) for c, _ in t.writes]
+    i, frames, bad = 0, [], None
+    while i < len(chunks):
+      hd = chunks[i]
+      if len(hd) != 24:
+        bad = 'chunk %d (%d bytes: %r) stands where a header must be' % (i, len(hd), hd[:16])
+        break
+      w, a0, a1, ln, ck, mg = struct.unpack('<6I', hd)
+      i += 1
+      if ln:
+        if i < len(chunks) and len(chunks[i]) == ln and len(chunks[i]) != 24:
+          frames.append((WORD_TO_CMD.get(w), a0, a1, b2s(chunks[i])))
+          i += 1
+        else:
+          frames.append((WORD_TO_CMD.get(w), a0, a1, None))       # header without payload: the failed transfer
+      else:
+        if i < len(chunks) and chunks[i] == b'':
+          i += 1              # (the adapter also issues the empty payload transfer of a message without data)
+        frames.append((WORD_TO_CMD.get(w), a0, a1, ''))
+    if bad:
+      viols.append(('writefaults:orphan-payload:%d' % fail_at, 'write #%d failed; on the wire afterwards: %s (results %r)' % (fail_at, bad, results),
+                    {'part': 'writefaults', 'fail_at': fail_at}))
+      continue
+    sent_ok = [m for m, r in zip(msgs, results) if r == 'ok']
+    failed_empty = [m for m, r in zip(msgs, results) if r != 'ok' and m[3] == '']
+    # (a message without data whose header went out is a complete frame on the wire even if its empty transfer failed)
+    complete = [f for f in frames if f[3] is not None and not (f in failed_empty and f not in sent_ok)]
+    if complete != sent_ok:
+      viols.append(('writefaults:frames:%d' % fail_at, 'write #%d failed; complete frames on the wire %r, messages written without error %r'
+                    % (fail_at, complete, sent_ok), {'part': 'writefaults', 'fail_at': fail_at}))
+  return n, len(outcomes), viols, [{'messages': msgs, 'failing_write': '1..7'}]
+
+
 def run(tier):
   rep = common.Report(PID, tier, 'model_checking')
+  n, d, viols, samples = part_write_faults()
+  rep.merge_violations(viols)
+  rep.add_part('write faults', evaluations=n, distinct_nontrivial=d, exhaustive=True, samples=samples)
   items = ['grid'] + list(range(256))
   res = common.pmap(_rt_chunk, items)
   n = sum(r[0] for r in res)
